@@ -26,7 +26,7 @@ func concMint(px *Proxy, s *sessionsapi.SessionState, host string) (string, erro
 	}
 	rec := httptest.NewRecorder()
 	req := httptest.NewRequest("GET", "http://"+host+"/", nil)
-	if err := px.P.sessionStore.Save(rec, req, s); err != nil {
+	if err := verifSessionStore(px.P).Save(rec, req, s); err != nil {
 		return "", err
 	}
 	jar := world.NewJar()
